@@ -9,7 +9,7 @@ from ..absint import Evaluator, Unsupported
 from ..flow import show, walk_term
 from ..model import fold_const
 from ..report import ob_ok, ob_fail, ob_undecided
-from .common import is_call, method_call, edge_attr, need, strip_wrappers, strip_not, if_arms, aug_like, call_arg
+from .common import is_call, method_call, edge_attr, need, strip_wrappers, strip_not, if_arms, aug_like, call_arg, enclosing_loops
 from . import tables
 
 MAX_PATHS = 20000
@@ -685,6 +685,28 @@ def emit_write_graph(repo, tier="quick"):
                           reason="markers are reused only after their ring was closed")) if frees else
          obs.append(ob_fail("PROV.ring-marker", fi, NEW_test, construct="closing arm keeps the marker entry", instance="release",
                             reason="a closed ring's marker is never released: the closing marker is not looked up / the ring opens again")))
+    # every traversal helper starts from the node the serialisation starts from
+    dfs_calls = []
+    for call, nid in fl.calls():
+        t = repo.resolve_call(fi, call)
+        if t.kind == "ext" and t.name.startswith("networkx.") and t.name.split(".")[-1].startswith(("dfs_", "bfs_")):
+            src = call_arg(call, 1, "source")
+            dfs_calls.append((call, fl.canon(src, nid) if src is not None else None, t.name))
+    if dfs_calls:
+        roots = {r for _, r, _ in dfs_calls}
+        stack0 = None
+        for d in fl.defs:
+            if d.kind == "assign" and isinstance(d.value, ast.List) and len(d.value.elts) == 1 and not enclosing_loops(fi, d.node):
+                # the work list the main loop pops from
+                if any(isinstance(x, ast.Call) and isinstance(x.func, ast.Attribute) and x.func.attr == "pop" and isinstance(x.func.value, ast.Name) and x.func.value.id == d.var
+                       for x in ast.walk(fi.node)):
+                    stack0 = fl.canon(d.value.elts[0], d.node)
+        same = len(roots) == 1 and None not in roots and (stack0 is None or roots == {stack0})
+        (obs.append(ob_ok("PROV.dfs-root", fi, dfs_calls[0][0], construct="%d traversal call(s), all from the start node" % len(dfs_calls), instance="root",
+                          reason="successor lists, predecessors and the written order describe the same spanning tree")) if same else
+         obs.append(ob_fail("PROV.dfs-root", fi, dfs_calls[-1][0], construct="traversals start from %s, the serialisation from %s" % (sorted(show(r) if r else "<networkx default: first node>" for r in roots), show(stack0) if stack0 else "?"),
+                            instance="root", reason="tree edges, predecessors and ring bonds are taken from different spanning trees when the first inserted node is "
+                                                    "not the start node: bond orders are read from the wrong edge")))
     # the test "does this edge need a symbol" - trusted when it is pysmiles' own, judged when re-implemented locally
     tgt = repo.resolve_name(fi.module, SYMFN)
     if tgt is not None and tgt.kind == "repo":
